@@ -354,47 +354,19 @@ func genConc(o *hx.Opts, i int) *ConcIn {
 
 // ---------------------------------------------------------------------------------------
 
-type job struct {
-	id  string
-	in  interface{}
-	obs interface{}
-}
-
-func exec(dir string, j *job) {
+func execCase(dir string, in interface{}) interface{} {
 	d, err := os.MkdirTemp(dir, "c")
 	if err != nil {
-		j.obs = SeqObs{Fail: err.Error()}
-		return
+		return SeqObs{Fail: err.Error()}
 	}
 	defer os.RemoveAll(d)
-	switch in := j.in.(type) {
+	switch in := in.(type) {
 	case *SeqIn:
-		j.obs = runSeq(d, in)
+		return runSeq(d, in)
 	case *ConcIn:
-		j.obs = runConc(d, in)
+		return runConc(d, in)
 	}
-}
-
-func runJobs(o *hx.Opts, w *lineio.Writer, jobs []*job, par int) {
-	var wg sync.WaitGroup
-	ch := make(chan *job)
-	for k := 0; k < par; k++ {
-		wg.Add(1)
-		go func() {
-			defer wg.Done()
-			for j := range ch {
-				exec(o.Scratch, j)
-			}
-		}()
-	}
-	for _, j := range jobs {
-		ch <- j
-	}
-	close(ch)
-	wg.Wait()
-	for _, j := range jobs {
-		w.Put(&lineio.Case{ID: j.id, In: j.in, Obs: j.obs})
-	}
+	return SeqObs{Fail: "unknown input"}
 }
 
 func decode(raw json.RawMessage) (interface{}, error) {
@@ -415,9 +387,26 @@ func decode(raw json.RawMessage) (interface{}, error) {
 	return nil, fmt.Errorf("unknown case kind %q", k.Kind)
 }
 
+// emit writes the cases in order; a worker that died or hung on a case is that case's
+// observation.
+func emit(w *lineio.Writer, jobs []*rt.Job) {
+	for _, j := range jobs {
+		var obs interface{} = j.Obs
+		switch {
+		case j.Crashed:
+			obs = map[string]interface{}{"fail": "crashed", "panic": j.Panic}
+		case j.Blocked:
+			obs = map[string]interface{}{"fail": "blocked", "panic": ""}
+		case j.Obs == nil:
+			obs = map[string]interface{}{"fail": "not run", "panic": ""}
+		}
+		w.Put(&lineio.Case{ID: j.ID, In: j.In, Obs: obs})
+	}
+}
+
 func Run(o *hx.Opts, w *lineio.Writer) error {
 	rt.Quiet()
-	if len(filepath.Join(o.Scratch, "c0123456789", "n123456.sock")) > 100 {
+	if len(filepath.Join(o.Scratch, "w123456", "scratch", "c0123456789", "n123456.sock")) > 100 {
 		// unix socket paths are limited; fall back to a short private directory
 		d, err := os.MkdirTemp("", "c06-")
 		if err != nil {
@@ -426,36 +415,51 @@ func Run(o *hx.Opts, w *lineio.Writer) error {
 		defer os.RemoveAll(d)
 		o.Scratch = d
 	}
+	if rt.IsWorker(func(_ string, _ string, raw json.RawMessage) interface{} {
+		in, err := decode(raw)
+		if err != nil {
+			return SeqObs{Fail: err.Error()}
+		}
+		return execCase(o.Scratch, in)
+	}) {
+		return nil
+	}
 	if o.Replay != "" {
 		cases, err := hx.ReplayCases(o.Replay)
 		if err != nil {
 			return err
 		}
-		var jobs []*job
+		var jobs []*rt.Job
 		for _, c := range cases {
-			in, err := decode(c.In)
-			if err != nil {
+			if _, err := decode(c.In); err != nil {
 				return err
 			}
-			jobs = append(jobs, &job{id: c.ID, in: in})
+			jobs = append(jobs, &rt.Job{ID: c.ID, In: c.In})
 		}
-		runJobs(o, w, jobs, 1)
-		return nil
+		err = rt.Dispatch(o.Scratch, "C06", "", jobs, 8, 4, 90*time.Second)
+		emit(w, jobs)
+		return err
 	}
-	var seq, conc []*job
+	var seq, conc []*rt.Job
 	if o.Budget <= 1 {
 		for i, in := range genMasks(o) {
-			seq = append(seq, &job{id: fmt.Sprintf("masks-%d", i), in: in})
+			seq = append(seq, &rt.Job{ID: fmt.Sprintf("masks-%d", i), In: in})
 		}
 	}
 	for i := 0; i < o.N(200, 2000); i++ {
-		seq = append(seq, &job{id: fmt.Sprintf("random-%d", i), in: genRandom(o, i)})
+		seq = append(seq, &rt.Job{ID: fmt.Sprintf("random-%d", i), In: genRandom(o, i)})
 	}
 	for i := 0; i < o.N(60, 2000); i++ {
-		conc = append(conc, &job{id: fmt.Sprintf("conc-%d", i), in: genConc(o, i)})
+		conc = append(conc, &rt.Job{ID: fmt.Sprintf("conc-%d", i), In: genConc(o, i)})
 	}
-	runJobs(o, w, seq, 4)
-	// concurrent cases one at a time: they set GOMAXPROCS and want the cores to themselves
-	runJobs(o, w, conc, 1)
-	return nil
+	err := rt.Dispatch(o.Scratch, "C06", "", seq, 10, 6, 90*time.Second)
+	emit(w, seq)
+	// concurrent cases: each worker sets GOMAXPROCS for itself; fewer at a time so that the
+	// callers really run in parallel
+	err2 := rt.Dispatch(o.Scratch, "C06", "", conc, 10, 3, 90*time.Second)
+	emit(w, conc)
+	if err == nil {
+		err = err2
+	}
+	return err
 }
